@@ -166,7 +166,7 @@ func checkC20(c *ctx) {
 			{"underscore", map[string]string{"a_b.go": body("underscore", "RunA", ""), "ab.go": body("underscore", "RunB", "")}},
 			{"oddnames", map[string]string{"my-flow.v2.go": body("oddnames", "Run", "")}},
 			{"lineend", map[string]string{"p.go": lineEnd}},
-			{"crlf", map[string]string{"p.go": strings.ReplaceAll(strings.Replace(body("crlf", "Run", "const banner = `two\nlines`\n\n"), "cff.Params(n)", "cff.Params(n + len(`a\nb`))", 1), "\n", "\r\n")}},
+			{"crlf", map[string]string{"p.go": strings.ReplaceAll("//go:build cff\n\npackage crlf\n\nimport (\n\t\"context\"\n\n\t\"go.uber.org/cff\"\n)\n\nfunc Run(ctx context.Context, n int) (k int64, err error) {\n\terr = cff.Flow(ctx,\n\t\tcff.Params(n, `two\nlines`),\n\t\tcff.Results(&k),\n\t\tcff.Task(func(i int, t string) (int64, error) { return int64(len(t) + i), nil }),\n\t)\n\treturn\n}\n", "\n", "\r\n")}},
 			{"parend", map[string]string{"p.go": parEnd}},
 		}
 		for _, sp := range spkgs {
